@@ -12,6 +12,11 @@ def _c(text, ref):
 
 
 CLAIMS = {
+    "C08": _c("Bounded symbolic model checking of the real printer/lexer/parser pair: print_block_string and print_string against "
+              "the lexer for every string value up to the stated length over all Unicode scalar values (plain and minimized), raw "
+              "block string text against the spec's BlockStringValue, programmatically built trees with arbitrary string values at "
+              "nesting depth 1..3 and as descriptions, and 10 snippet templates covering every printer method with symbolic token "
+              "texts in the holes; assertion: parse(print(x)) == x and print is a fixed point.", "DESIGN.md section 7, C08"),
     "C01": _c("Bounded symbolic model checking of the real lexer, schema-coordinate lexer, the five parsing entry points and "
               "graphql_sync: symbolic source text (all code points incl. lone surrogates) up to the stated lengths, escape/number/"
               "block-string templates with arbitrary tails, truncation at every point, single-character substitution by any code "
